@@ -132,6 +132,23 @@ def run_check(prop, tier, replay=None):
             cases = rp["cases"]
         else:
             cases = prop.cases(tier, rng)
+            # thorough: the seeded part of the generators is drawn again from further random streams; cases whose
+            # identifying key was seen already are dropped (systematic families repeat, random picks do not)
+            extra = int(os.environ.get("VERIF_THOROUGH_SEEDS", "3")) - 1 if tier == "thorough" else 0
+            if extra > 0:
+                seen = {json.dumps(prop.nontrivial(c), sort_keys=True, default=str) for c in cases}
+                for k in range(extra):
+                    more = prop.cases(tier, random.Random("%s/%d/extra%d" % (pid, core.SEED, k)))
+                    for c in more:
+                        key = json.dumps(prop.nontrivial(c), sort_keys=True, default=str)
+                        if key == "null" or key in seen:
+                            continue
+                        seen.add(key)
+                        c.pop("id", None)
+                        gk = prop.group_key
+                        if gk and c.get(gk) not in (None, "none"):
+                            c[gk] = "%s-x%d" % (c[gk], k)        # groups of another stream are groups of their own
+                        cases.append(c)
         for n, c in enumerate(cases):
             c.setdefault("id", n + 1)
         results = core.run_cases(type(prop).runner, cases, timeout=prop.timeout, isolate=prop.isolate)
